@@ -1,6 +1,7 @@
 import CMacVerif.Model.Ranlux
 import CMacVerif.Model.RanluxSplit
 import CMacVerif.Model.RanluxUse
+import CMacVerif.Model.RanluxCtx
 import CMacVerif.Inst.Float
 import CMacVerif.Util.Bits
 open CMacVerif CMacVerif.Util CMacVerif.Ranlux
@@ -73,6 +74,34 @@ def emitOp (s : State) (tag : String) : State × String :=
   let tau := emitTau (toF k3)
   (s3, s!"emit {showF x} {showF y} {showF z} {showF tau} #emit-{tag}")
 
+/-- hash of the optical depths `-log(u)` of the given draws (bit patterns, as the harness) -/
+def tauHash (l : List Int) : Nat :=
+  l.foldl (fun h u => (h * 6364136223846793005 + bitsOf (emitTau (toF u)) + 1442695040888963407)
+    % 18446744073709551616) 0
+
+/-- `ctx <seed> <nthreads> <tok>…`: the driver loop of `Model/RanluxCtx` (stub spectrum: one draw
+per packet; stub handler: re-emit iff the draw is below 0.5) -/
+def ctxLoop : List String → Array State → Option Nat → String → String
+  | [], _, _, acc => acc
+  | tok :: rest, gens, buf, acc =>
+    if tok = "I" then ctxLoop rest gens buf acc else
+    let body := (tok.drop 1).toString
+    let parts := body.splitOn ":"
+    let t := nat! (parts.getD 0 "")
+    let g := gens.getD t (seedState exact 42)
+    if tok.startsWith "S" then
+      let n := nat! (parts.getD 1 "")
+      let (l, g') := sourceLoop 1 n g
+      let c := (sourceOp t 1 n).draws g
+      ctxLoop rest (gens.setIfInBounds t g') (some n) (acc ++ s!" {t}:{c}:{n}:{tauHash l}")
+    else
+      match buf with
+      | none => ctxLoop rest gens buf (acc ++ s!" {t}:-")
+      | some m =>
+        let (c, l, g') := reemitLoop 140737488355328 m g
+        ctxLoop rest (gens.setIfInBounds t g') (if l.length = 0 then none else some l.length)
+          (acc ++ s!" {t}:{c}:{l.length}:{tauHash l}")
+
 def step (s : State) : List String → State × String
   | ["seed", n] =>
     let s' := seedState exact (intOf n)
@@ -94,6 +123,10 @@ def step (s : State) : List String → State × String
       | some s' => (s', s!"state {showState s'}")
       | none => (s, "state-error")
     else (s, "bad-op")
+  | ["own"] => (s, "own 1 1 1 #own")
+  | "ctx" :: s0 :: n :: toks =>
+    let gens := ((List.range (nat! n)).map fun i => seedState exact (threadSeed (intOf s0) i)).toArray
+    (s, ctxLoop toks gens none "ctx" ++ " #ctx")
   | ["abi"] => (s, "abi 8 8 8 #abi")
   | ["nexti"] =>
     let (r, s') := nextInt exact s
